@@ -237,7 +237,17 @@ pub fn judge_path_text(text: &str, seed: &[u8], origin: &str, cls: &mut Classifi
             match &seen {
                 Seen::Rejected(_) => cls.label(&format!("{origin}:unspecified:refused")),
                 Seen::Accepted { printed, key, reparsed } => {
-                    // only self-consistency: what it prints parses and selects the same key
+                    // "every accepted path prints back in that canonical form": an accepted '+' / zero-padded
+                    // spelling must print the canonical text of the numbers it was read as
+                    if matches!(kind, "leading-plus" | "leading-zeros") {
+                        if let Shape::Comps(comps) = analyse(text) {
+                            let canonical = format!("m/{}", comps.iter().flatten().map(|c| format!("{}{}", c.value, if c.hardened { "'" } else { "" })).collect::<Vec<_>>().join("/"));
+                            if *printed != canonical {
+                                return fail(canonical, printed.clone(), format!("path text {shown} (spelling the property leaves open) is accepted, so it must print back in the canonical form m/i1/i2/..."));
+                            }
+                        }
+                    }
+                    // self-consistency: what it prints parses and selects the same key
                     match reparsed {
                         Ok((_, key2)) if key2.as_ref().ok() == key.as_ref().ok() && key2.is_ok() == key.is_ok() => {}
                         Ok((_, key2)) => {
